@@ -27,6 +27,7 @@ type propInfo struct {
 	Bin         string   `json:"bin"`
 	ExtraBins   []string `json:"extra_bins"`
 	QuickS      int      `json:"quick_s"`
+	QuickRuns   int      `json:"quick_runs"`
 	ThoroughS   int      `json:"thorough_s"`
 	Level       string   `json:"level"`
 	Rule        string   `json:"rule"`
@@ -77,6 +78,8 @@ type knownFinding struct {
 
 var root = "/verif"
 
+var runCap int // run-index cap of this invocation (0 = none)
+
 func die(code int, format string, args ...any) {
 	fmt.Fprintf(os.Stderr, format+"\n", args...)
 	os.Exit(code)
@@ -94,6 +97,7 @@ func main() {
 	tier := os.Getenv("VERIF_TIER")
 	replay := ""
 	budget := 0
+	maxRuns := 0
 	workers := runtime.NumCPU()
 	for i := 1; i < len(args); i++ {
 		switch args[i] {
@@ -106,6 +110,9 @@ func main() {
 		case "--budget":
 			i++
 			budget, _ = strconv.Atoi(args[i])
+		case "--runs":
+			i++
+			maxRuns, _ = strconv.Atoi(args[i])
 		case "--workers":
 			i++
 			workers, _ = strconv.Atoi(args[i])
@@ -178,6 +185,12 @@ func main() {
 		}
 		os.Exit(rc)
 	}
+	if budget == 0 && maxRuns == 0 && tier == "quick" && os.Getenv("VERIF_BUDGET_S") == "" {
+		// quick tier = run indices [0, quick_runs) of the seed (fewer only if the wall-clock
+		// budget expires first): the same executions on every machine, so a seed that was
+		// swept quiet here cannot raise an alarm merely because another machine is faster
+		maxRuns = info.QuickRuns
+	}
 	if budget == 0 {
 		budget = info.QuickS
 		if tier == "thorough" {
@@ -187,6 +200,7 @@ func main() {
 			budget, _ = strconv.Atoi(v)
 		}
 	}
+	runCap = maxRuns
 	tmp, err := os.MkdirTemp("", "verif-run-")
 	if err != nil {
 		die(2, "tmp: %v", err)
@@ -219,6 +233,9 @@ func main() {
 				fmt.Sprintf("VERIF_BUDGET_S=%d", budget), "VERIF_OUT="+outPath, "VERIF_PROGRESS="+progPath,
 				"VERIF_REPLAY_DIR="+replayDir, "VERIF_KNOWN="+filepath.Join(root, "known_findings.jsonl"),
 				"GOMAXPROCS=1", "VERIF_REPLAY=")
+			if maxRuns > 0 {
+				cmd.Env = append(cmd.Env, fmt.Sprintf("VERIF_MAX_RUNS=%d", (maxRuns+len(bins)-1)/len(bins)))
+			}
 			var so, se bytes.Buffer
 			cmd.Stdout, cmd.Stderr = &so, &se
 			done := make(chan error, 1)
@@ -537,6 +554,7 @@ func writeEvidence(prop, tier string, seed int64, info propInfo, agg *workerOut,
 		"known_findings_observed":     agg.Known,
 		"worker_processes":            workers,
 		"budget_seconds_per_worker":   budget,
+		"run_index_cap":               runCap,
 		"real_components":             info.Real,
 		"stubbed_components":          info.Stub,
 		"exhaustive":                  false,
